@@ -362,6 +362,8 @@ class Interp(object):
         x.include = url
 
     def op_finalize(self, d):
+        if kind_of(d) == "doc" and self.U.links_cyclic(d):
+            raise Skip("links form a cycle: finalize would not return")
         d.finalize()
 
     def op_clean(self, x):
